@@ -540,9 +540,17 @@ func busGenCase(r *busRng, idx int, thorough bool) busCase {
 		case 0: // misaligned start
 			id := g.newMem("rec", 0, 0)
 			g.attach(id, s+uint32(1+r.n(15)), e)
-		case 1: // misaligned end
+		case 1: // misaligned end, or both ends misaligned (incl. the pairs whose offsets cancel: start+end+1 = 0 mod 16)
 			id := g.newMem("rec", 0, 0)
-			g.attach(id, s, e-uint32(1+r.n(15)))
+			switch r.n(3) {
+			case 0:
+				g.attach(id, s, e-uint32(1+r.n(15)))
+			case 1:
+				k := uint32(1 + r.n(15))
+				g.attach(id, s+k, e-(16-k)) // (s+k) + (e-(16-k)) + 1 = s + e + 1 - 16 + 2k - ... : nibbles k and 16-k cancel
+			default:
+				g.attach(id, s+uint32(1+r.n(15)), e-uint32(1+r.n(15)))
+			}
 		case 2: // re-attach an earlier memory over (part of) what overrode it
 			if len(g.rngs) > 0 {
 				p := g.rngs[r.n(len(g.rngs))]
@@ -1016,6 +1024,14 @@ func busCheckCmd(args []string) int {
 				s += uint32(1 + r.n(15))
 			case 1:
 				e -= uint32(1 + r.n(15))
+			case 2: // both ends misaligned; half of the time with offsets that cancel (start + end + 1 = 0 mod 16)
+				k := uint32(1 + r.n(15))
+				s += k
+				if r.n(2) == 0 && hiB > lo {
+					e -= 16 - k
+				} else {
+					e -= uint32(1 + r.n(15))
+				}
 			}
 			h = append(h, [3]uint32{id, s, e})
 		}
